@@ -1,2 +1,5 @@
 pub mod c01;
 pub mod c03;
+pub mod c05;
+pub mod c12;
+pub mod c04;
